@@ -571,7 +571,15 @@ func TestVerifC10Plans(t *testing.T) {
 				r.Region = regionOf[r.ID]
 				switch {
 				case positive:
-					r.V = int64(rapid.IntRange(4, 100000).Draw(t, "v"))
+					// zeros and small negatives too (a shard's partial may sum to exactly zero); groups whose mean would fall below 1 are lifted below
+					switch rapid.IntRange(0, 3).Draw(t, "pk") {
+					case 0:
+						r.V = 0
+					case 1:
+						r.V = int64(rapid.IntRange(-40, 40).Draw(t, "v"))
+					default:
+						r.V = int64(rapid.IntRange(4, 100000).Draw(t, "v"))
+					}
 				case c.Float || c.Fn == "SUM" || c.Fn == "MEAN":
 					r.V = int64(rapid.IntRange(-100000, 100000).Draw(t, "v"))
 				default:
@@ -581,6 +589,32 @@ func TestVerifC10Plans(t *testing.T) {
 			}
 			if len(c.Rows) == 0 {
 				c.Rows = []c10Row{{ID: 0, Region: 0, V: 7, T: 0}}
+			}
+			if positive {
+				// construct around the recorded finding: raise the largest value of every group whose mean is below 1 (float field: value/4)
+				for tries := 0; tries < 8 && meanBelowOnePlan(c); tries++ {
+					for g, r := range c.reference() {
+						if r.num >= 1 {
+							continue
+						}
+						best := -1
+						for i, row := range c.Rows {
+							rg := fmt.Sprintf("r%d", row.Region)
+							if c.GroupBy == "id" {
+								rg = fmt.Sprintf("svc-%d", row.ID)
+							}
+							if c.GroupBy == "none" {
+								rg = "*"
+							}
+							if rg == g && (best < 0 || row.V > c.Rows[best].V) {
+								best = i
+							}
+						}
+						if best >= 0 {
+							c.Rows[best].V = 4_000_000
+						}
+					}
+				}
 			}
 			return c
 		},
